@@ -423,6 +423,7 @@ def gen_dm(rng, tier):
 
 def gen_cases(rng, tier, scale):
     n_tv, n_dm = (1300, 900) if tier == 'quick' else (16000, 9000)
+    scale = min(scale, 3)      # a broken proof/translation obligation: search three times as many cases
     cases = [gen_tv(rng, tier) for _ in range(n_tv * scale)] + [gen_dm(rng, tier) for _ in range(n_dm * scale)]
     return cases
 
@@ -542,6 +543,7 @@ def judge_dm(c, r, m):
     i_out = r['out']
     corr = i_out == res
     what = []
+    bad = {'ids': set(), 'other': False}     # which definitions the complaints are about (for shrinking)
     raised = i_out[0] in (1, 3)
     eff_ids = None
     if 'dir' in r:
@@ -553,15 +555,18 @@ def judge_dm(c, r, m):
     if not c['param']:
         if i_out[0] != 3 and not (i_out[0] == 1 and i_out[1] == ASSERTION):      # 3: no class, the class body raised
             what.append(f'unparametrised WithDecoratedMethods must raise AssertionError, outcome {i_out[:4]} ({r.get("exc_name")})')
-        return corr, not what, '; '.join(what), claimed, no_dd, m_ok
+            bad['other'] = True
+        return corr, not what, '; '.join(what), claimed, no_dd, m_ok, bad
     if claimed:
         got = split_result(i_out)
         if got is None:
             what.append(f'get_decorated_functions did not return a result: outcome {i_out[:4]} ({r.get("exc_name")}, stage {r.get("stage")})')
+            bad['other'] = True
         else:
             keys = [mi for mi, _ in got]
             if sorted(keys) != list(range(len(c['members']))):
                 what.append(f'the result has keys {keys}, demanded is one key per member of the enum {c["members"]}')
+                bad['other'] = True
             else:
                 by = dict(got)
                 for mi, want in enumerate(demanded):
@@ -569,18 +574,22 @@ def judge_dm(c, r, m):
                     missing = [p for p in want if p not in have]
                     extra = [p for p in have if p not in want]
                     if missing or extra or len(set(have)) != len(have):
+                        bad['ids'].update(p[0] for p in missing + extra)
+                        bad['other'] = bad['other'] or (not missing and not extra)
                         what.append(f'member {c["members"][mi]}: missing (method id, value) {missing}, extra {extra}, reported {have}')
                 kinds = {d['id']: KIND_OF.get(d['kind']) for cl in c['classes'] for d in cl.get('defs', []) if d['kind'] in KIND_OF}
                 for mi, fid, kind in r.get('kinds', []):
                     if fid in kinds and kinds[fid] != kind:
+                        bad['ids'].add(fid)
                         what.append(f'method id {fid} is reported as an object of kind {kind} (1 bound to the instance, 2 bound to the class, '
                                     f'3 plain function, 4 other), expected {kinds[fid]}')
             if eff_ids is not None:
                 have_j = sorted(j[:4] for j in r['journal'] if j[1] in eff_ids or j[1] == -1)
                 want_j = expected_journal(c, eff_ids)
                 if have_j != want_j:
+                    bad['ids'].update(j[1] for j in have_j + want_j if (j in have_j) != (j in want_j))
                     what.append(f'transformations were called with (kind, function id, member, value) {have_j}, demanded {want_j}')
-    return corr, not what, '; '.join(what), claimed, no_dd, m_ok
+    return corr, not what, '; '.join(what), claimed, no_dd, m_ok, bad
 
 
 def dm_size(c):
@@ -588,12 +597,16 @@ def dm_size(c):
             for cl in c['classes'] for d in cl.get('defs', [])), len(c['classes']), len(c['members']))
 
 
-def shrink_candidates(c):
-    """single-definition class bodies cut out of a failing case (smallest-first replay)"""
+def shrink_candidates(c, bad):
+    """single-definition class bodies cut out of a failing case (smallest-first replay): the definitions the complaints
+    name; when a complaint is not about particular definitions, every decorated definition and the body without its
+    decorated dunder-named methods"""
     out = []
     for cl in c['classes']:
         for d in cl.get('defs', []):
             if d['kind'] == 'alias' or not (d.get('inner') or d.get('outer')):
+                continue
+            if not bad['other'] and d['id'] not in bad['ids']:
                 continue
             used = sorted({x[0] for x in d.get('inner', []) + d.get('outer', [])})
             ren = {old: new for new, old in enumerate(used)}
@@ -601,6 +614,8 @@ def shrink_candidates(c):
                       outer=[[ren[x[0]], x[1], x[2]] for x in d.get('outer', [])])
             out.append({'stream': 'dm', 'members': [c['members'][i] for i in used], 'inst': 10, 'param': True,
                         'classes': [{'id': 10, 'name': cl.get('name') or 'K', 'bases': [['wdm', 'enum']], 'defs': [d2]}]})
+    if not bad['other']:
+        return out
     # the body without its decorated methods of dunder name
     cut = False
     classes = []
@@ -685,7 +700,7 @@ def run(tier, seed, replay=None):
                 if not m_meets:
                     meets_fail.append({'case': c, 'model': m})
             else:
-                corr, prop, what, claimed, no_dd, m_ok = judge_dm(c, r, m)
+                corr, prop, what, claimed, no_dd, m_ok, bad = judge_dm(c, r, m)
                 label = ('claimed' if claimed else 'near-miss') + ('' if no_dd else '+dunder') + ('' if c['param'] else '/unparam')
                 outc = {0: 'result', 1: 'raise', 2: 'value', 3: 'class-body-raise'}[r['out'][0]]
                 key = json.dumps([c['members'], c['classes']])
@@ -705,7 +720,7 @@ def run(tier, seed, replay=None):
             ck.traces_validated += 1
         if not prop:
             if st == 'dm':
-                failing_dm.append((c, r, m, what))
+                failing_dm.append((c, r, m, what, bad))
             else:
                 ck.violation(what, c, stream='mixins/tv', extra={'impl': r, 'model': m})
         elif not corr:
@@ -715,9 +730,9 @@ def run(tier, seed, replay=None):
     # dunder-named methods, are re-run in one batch; what still fails is reported (smallest first), else the case itself
     failing_dm.sort(key=lambda t: dm_size(t[0]))
     cands, per_case = {}, []
-    for c, r, m, what in failing_dm[:80]:
+    for c, r, m, what, bad in failing_dm[:3000]:
         keys = []
-        for cc in (shrink_candidates(c) if c['param'] else []):
+        for cc in (shrink_candidates(c, bad) if c['param'] and len(cands) < 4000 else []):
             k = json.dumps(cc, sort_keys=True)
             cands.setdefault(k, cc)
             keys.append(k)
@@ -735,11 +750,10 @@ def run(tier, seed, replay=None):
                 if not j[1]:
                     fails[k] = (cr, cmm, j[2])
     reported = set()
-    for (c, r, m, what), keys in zip(failing_dm, per_case + [[]] * len(failing_dm)):
+    for (c, r, m, what, bad), keys in zip(failing_dm, per_case + [[]] * len(failing_dm)):
         hit = [k for k in keys if k in fails]
-        if not hit:
+        if not hit or (not bad['other'] and len(hit) < len(keys)):      # a complaint that no single definition reproduces
             ck.violation(what, c, stream='mixins/dm', extra={'impl': r, 'model': m}, matcher=k9_matcher)
-            continue
         for k in hit:
             if k not in reported:
                 reported.add(k)
